@@ -484,6 +484,20 @@ pub fn run_history(ctx: &mut MCTPSMBusContext, own: u8, seed: u64) {
     let mut rng = Rng::new(seed);
     let mut rb = [0u8; 96];
     let n = 1 + rng.below(5);
+    // earlier *encodes* on the same context are history too (a per-context sequence number, tag or
+    // cache would show in the next packet): usually a few, sometimes a few hundred
+    let encodes = match rng.below(12) {
+        0 => 250 + rng.below(80),
+        1..=4 => 1 + rng.below(6),
+        _ => 0,
+    };
+    let mut scratch = [0u8; 300];
+    for _ in 0..encodes {
+        let form = *rng.pick(&ALL_FORMS);
+        let mut c = Call::random(form, &mut rng, false, 40);
+        c.hist = 0;
+        let _ = invoke_on(ctx, &c, &mut scratch, rng.chance(1, 2));
+    }
     for _ in 0..n {
         let src = rng.byte() & 0x7F;
         let iid = rng.byte() & 0x1F;
